@@ -191,7 +191,9 @@ def find_constant(repo, rel, regex):
 def enum_values(repo, rel, enum_name):
     """{enumerator: int} of `enum [class] enum_name [: type] { A = 1, B, C = -2 }`"""
     src = read_source(repo, rel)
-    m = re.search(r"enum\s+(?:class\s+)?%s\s*(?::\s*[\w:]+\s*)?\{(.*?)\}" % re.escape(enum_name), src, re.S)
+    m = re.search(r"enum\s+(?:class\s+)?%s\s*(?::\s*[\w:]+(?:\s+[\w:]+)*\s*)?\{(.*?)\}" % re.escape(enum_name), src, re.S)
+    if not m:        # typedef enum { … } Name;
+        m = re.search(r"typedef\s+enum\s*\{([^{}]*)\}\s*%s\s*;" % re.escape(enum_name), src, re.S)
     if not m:
         raise Refuse("enum %s not found in %s" % (enum_name, rel))
     vals, nxt = {}, 0
@@ -1059,6 +1061,8 @@ class Parser(Fn):
 
     def read_var(self, cname):
         ent = self.lookup(cname)
+        if ent is None:
+            raise self.R("unknown variable `%s`" % cname)
         ln, ty, mut = ent
         if ln not in self.all_assigned():
             raise self.R("`%s` may be read before assignment" % cname)
